@@ -150,3 +150,21 @@ package common
 //@   props C19
 //@   ensures bytesval(result) == lkeyof(n) && result != nil
 //@   modifies nothing
+
+// ---------------------------------------------------------------- freelist page (C12: the 0xFFFF count rule; C09)
+// pgids(p): the []Pgid view of the bytes behind the 16-byte page header (A-unsafe; raw memory model of the engine)
+//@ func (*Page).FreelistPageCount
+//@   returns (idx, count)
+//@   props C12 C09
+//@   panics when p.flags != FreelistPageFlag || (p.count == 65535 && rawslice(p, 16, "common.Pgid")[0] > 9223372036854775807)
+//@   ensures [small] p.count != 65535 ==> idx == 0 && count == p.count
+//@   ensures [big] p.count == 65535 ==> idx == 1 && count == rawslice(p, 16, "common.Pgid")[0]
+//@   modifies nothing
+
+//@ func (*Page).FreelistPageIds
+//@   props C12 C09
+//@   panics when p.flags != FreelistPageFlag || (p.count == 65535 && rawslice(p, 16, "common.Pgid")[0] > 9223372036854775807)
+//@   ensures [small] p.count != 65535 && p.count != 0 ==> israw(result) && offof(result) == offof(rawslice(p, 16, "common.Pgid")) && len(result) == p.count
+//@   ensures [big] p.count == 65535 && rawslice(p, 16, "common.Pgid")[0] != 0 ==> israw(result) && offof(result) == offof(rawslice(p, 16, "common.Pgid")) + 1 && len(result) == rawslice(p, 16, "common.Pgid")[0]
+//@   ensures [empty] p.count == 0 || (p.count == 65535 && rawslice(p, 16, "common.Pgid")[0] == 0) ==> result == nil
+//@   modifies nothing
